@@ -1115,6 +1115,180 @@ def _():
     return [b0, b1, base, s1, s2, stp, gen, fromstart, c1, c2, c3, c4, cl, fwd, fin]
 
 
+@proof('thompson', 'over-mono')
+def _():
+    S, Tt = Consts('S0_ T0_', T.SetA)
+    return word_ind(lambda w: Implies(And(T.over(S, w), T._sub(S, Tt)), T.over(Tt, w)))
+
+
+@proof('thompson', 'star-over')
+def _():
+    S = Const('S0_', T.SetA); u, w = Consts('u_ w_', Word); k, n = Consts('k_ n_', z3.IntSort())
+    hyp = ForAll([u], Implies(T.lmem(u, _X_), T.over(S, u)))
+    P = lambda n_: ForAll([w], Implies(And(T.wlen(w) <= n_, T.lmem(w, T.lstar(_X_))), T.over(S, w)))
+    base = ('base', [hyp], P(z3.IntVal(0)))
+    one = ('step-one', [hyp, P(n), 0 <= n, T.wlen(w) <= n + 1, 1 <= k, k <= T.wlen(w), T.lmem(T.take(k, w), _X_), T.lmem(T.drop(k, w), T.lstar(_X_))], T.over(S, w))
+    stp = ('step', [hyp, P(n), 0 <= n, ForAll([w, k], Implies(And(T.wlen(w) <= n + 1, 1 <= k, k <= T.wlen(w), T.lmem(T.take(k, w), _X_), T.lmem(T.drop(k, w), T.lstar(_X_))), T.over(S, w)))], P(n + 1))
+    return [base, one, stp, ('final', [ForAll([n], Implies(n >= 0, P(n))), T.lmem(w, T.lstar(_X_))], T.over(S, w))]
+
+
+@proof('thompson', 'L-over-syms')
+def _():
+    w = Const('w_', Word); k = Const('k_', z3.IntSort())
+    P = lambda r: ForAll([w], Implies(T.lmem(w, T.Lof(r)), T.over(T.syms(r), w)))
+    return regexp_ind(P)
+
+
+@proof('thompson', 'acc-over')
+def _():
+    N, = _nfa_consts('N_'); V, e, q0, Sg = T.nfa_view(N), T._eps(N), rec_get(N, 'q0').z, rec_get(N, 'Sigma').z
+    wf = T.s_nfa_wf(None, N).z; x = Const('x_', Atom)
+    vw = ('view-wf', [wf], T.view_wf(N))
+    # after a letter outside Sigma (and different from epsilon) no state is left
+    P = lambda w: Implies(And(T.noeps(e, w), Not(T.over(Sg, w))), T.Nhat(V, e, q0, w) == T.EMPTYA)
+    w = Const('w_', Word); a = _a_; wa = Word.snoc(w, a)
+    mv = ('step-move', [vw[2], Not(Select(Sg, a)), a != e], T.move(V, T.Nhat(V, e, q0, w), a) == T.EMPTYA)
+    stp = ('step', [vw[2], P(w), Implies(And(Not(Select(Sg, a)), a != e), mv[2])], P(wa))
+    fin = ('final', [wf, ForAll([w], P(w)), T.noeps(e, w), T.acc_b(N.z, w)], T.over(Sg, w))
+    return [vw, ('base', [], P(Word.nil)), mv, stp, fin]
+
+
+def _free_corollary(name, setup):
+    pass
+
+
+@proof('thompson', 'union-free')
+def _():
+    N1, N2, R = _nfa_consts('N1_', 'N2_', 'R_'); w = Const('w_', Word)
+    stb = T.union_b(N1.z, N2.z, R.z); st = T.union_struct(N1, N2, R); wfR = T.s_nfa_wf(None, R).z
+    S1, S2, SR = rec_get(N1, 'Sigma').z, rec_get(N2, 'Sigma').z, rec_get(R, 'Sigma').z
+    f1, f2 = T.noeps(T._eps(N1), w), T.noeps(T._eps(N2), w)
+    a1, a2, aR = T.acc_b(N1.z, w), T.acc_b(N2.z, w), T.acc_b(R.z, w)
+    facts = [stb, st, wfR, f1, f2]
+    ov = ('overs', facts, And(Implies(a1, T.over(S1, w)), Implies(a2, T.over(S2, w)), Implies(aR, T.over(SR, w)), Implies(T.over(S1, w), T.over(SR, w)), Implies(T.over(S2, w), T.over(SR, w))))
+    inn = ('inside', facts + [T.over(SR, w)], aR == Or(And(T.over(S1, w), a1), And(T.over(S2, w), a2)))
+    return [ov, inn, ('final', [ov[2], Implies(T.over(SR, w), inn[2])], aR == Or(a1, a2))]
+
+
+@proof('thompson', 'cat-free')
+def _():
+    N1, N2, R = _nfa_consts('N1_', 'N2_', 'R_'); w = Const('w_', Word); k = Const('k_', z3.IntSort())
+    stb = T.cat_b(N1.z, N2.z, R.z); st = T.cat_struct(N1, N2, R); wfR = T.s_nfa_wf(None, R).z
+    S1, S2, SR = rec_get(N1, 'Sigma').z, rec_get(N2, 'Sigma').z, rec_get(R, 'Sigma').z
+    f1, f2 = T.noeps(T._eps(N1), w), T.noeps(T._eps(N2), w)
+    aR = T.acc_b(R.z, w)
+    facts = [stb, st, wfR, f1, f2]
+    split = lambda k_: And(0 <= k_, k_ <= T.wlen(w), T.acc_b(N1.z, T.take(k_, w)), T.acc_b(N2.z, T.drop(k_, w)))
+    lsplit = lambda k_: And(0 <= k_, k_ <= T.wlen(w), T.lang_b(N1.z, T.take(k_, w)), T.lang_b(N2.z, T.drop(k_, w)))
+    pieces = ('pieces', facts, ForAll([k], And(T.noeps(T._eps(N1), T.take(k, w)), T.noeps(T._eps(N2), T.drop(k, w)))))
+    up = ('split-over', facts + [pieces[2], split(k)], And(lsplit(k), T.over(SR, w)))
+    inn = ('inside', facts + [T.over(SR, w)], aR == Exists([k], lsplit(k)))
+    out = ('outside', facts + [Not(T.over(SR, w))], Not(aR))
+    fin = ('final', [Implies(T.over(SR, w), inn[2]), Implies(Not(T.over(SR, w)), Not(aR)), ForAll([k], Implies(split(k), And(lsplit(k), T.over(SR, w)))), ForAll([k], Implies(lsplit(k), split(k)))], aR == Exists([k], split(k)))
+    return [pieces, up, inn, out, ('weaken', [lsplit(k)], split(k)), fin]
+
+
+@proof('thompson', 'star-free')
+def _():
+    N, R = _nfa_consts('N_', 'R_'); w = Const('w_', Word); u = Const('u_', Word)
+    stb = T.star_b(N.z, R.z); st = T.star_struct(N, R); wfR = T.s_nfa_wf(None, R).z; Sg = rec_get(N, 'Sigma').z
+    f = T.noeps(T._eps(N), w); aR = T.acc_b(R.z, w); rhs = T.lmem(w, T.lstar(T.NL(N.z)))
+    facts = [stb, st, wfR, f]
+    inn = ('inside', facts + [T.over(Sg, w)], aR == rhs)
+    o1 = ('outside-acc', facts + [Not(T.over(Sg, w))], Not(aR))
+    o2 = ('outside-star', [Not(T.over(Sg, w)), ForAll([u], Implies(T.lmem(u, T.NL(N.z)), T.over(Sg, u)))], Not(rhs))
+    nl = ('NL-over', [], ForAll([u], Implies(T.lmem(u, T.NL(N.z)), T.over(Sg, u))))
+    return [inn, o1, nl, o2, ('final', [Implies(T.over(Sg, w), inn[2]), Implies(Not(T.over(Sg, w)), And(Not(aR), Not(rhs)))], aR == rhs)]
+
+
+@proof('thompson', 'acc-sigma-irrelevant')
+def _():
+    Q, S1, S2, F = Consts('Q_ S1x_ S2x_ F_', T.SetA); dl = Const('dl_', sort_of(RECORDS['NFA']['delta'])); q0, e = Consts('q0_ e_', Atom); w = Const('w_', Word)
+    mk = parts(REC('NFA'))[1]
+    return [('unfold', [], T.acc_b(mk(Q, S1, dl, q0, F, e), w) == T.acc_b(mk(Q, S2, dl, q0, F, e), w))]
+
+
+@proof('thompson', 'leaf-one')
+def _():
+    q, x, b, y = Consts('q_ x_ b_ y_', Atom)
+    hyp = ForAll([x, b, y], Not(Select(Select(_V_, T.mkKey2(x, b)), y)))
+    e0 = ('closure', [hyp, T.Eclo_least(_V_, _e_, T.single(q), T.single(q))], T.Eclo(_V_, _e_, T.single(q)) == T.single(q))
+    mv = ('no-move', [hyp], ForAll([_S1, b], T.move(_V_, _S1, b) == T.EMPTYA))
+    P = lambda w: T.Nhat(_V_, _e_, q, w) == z3.If(w == Word.nil, T.single(q), T.EMPTYA)
+    return [e0, mv] + [(t, [e0[2], mv[2]] + h, g) for (t, h, g) in word_ind(P)]
+
+
+@proof('thompson', 'leaf-sym')
+def _():
+    q, q1, a, x, b, y = Consts('q_ q1_ a_ x_ b_ y_', Atom); w = Const('w_', Word)
+    hyp = [ForAll([x, b, y], Select(Select(_V_, T.mkKey2(x, b)), y) == And(x == q, b == a, y == q1)), a != _e_, q != q1]
+    c0 = ('closure-q', hyp + [T.Eclo_least(_V_, _e_, T.single(q), T.single(q))], T.Eclo(_V_, _e_, T.single(q)) == T.single(q))
+    c1 = ('closure-q1', hyp + [T.Eclo_least(_V_, _e_, T.single(q1), T.single(q1))], T.Eclo(_V_, _e_, T.single(q1)) == T.single(q1))
+    m0 = ('move-q', hyp, ForAll([b], T.move(_V_, T.single(q), b) == z3.If(b == a, T.single(q1), T.EMPTYA)))
+    m1 = ('move-q1', hyp, ForAll([b], T.move(_V_, T.single(q1), b) == T.EMPTYA))
+    val = lambda w_: z3.If(w_ == Word.nil, T.single(q), z3.If(w_ == Word.snoc(Word.nil, a), T.single(q1), T.EMPTYA))
+    P = lambda w_: T.Nhat(_V_, _e_, q, w_) == val(w_)
+    facts = [c0[2], c1[2], m0[2], m1[2]]
+    return [c0, c1, m0, m1] + [(t, facts + h, g) for (t, h, g) in word_ind(P)]
+
+
+def _nl_is_l_steps(N, r):
+    """NL(N) == L(r) from: N valid, syms(r) within its alphabet, N accepts exactly the epsilon-free words of L(r)"""
+    u = Const('u_', Word)
+    e = T._eps(N); Sg = rec_get(N, 'Sigma').z
+    hyp = [T.s_nfa_wf(None, N).z, T._sub(T.syms(r), Sg), T.agrees_pred(N, r)]
+    s1 = ('nl-sigma-epsfree', hyp, T._sub(Sg, T.allbut(e)))
+    s2 = ('nl-fwd', hyp + [s1[2], T.lmem(u, T.NL(N.z))], T.lmem(u, T.Lof(r)))
+    s3 = ('nl-bwd', hyp + [s1[2], T.lmem(u, T.Lof(r))], T.lmem(u, T.NL(N.z)))
+    same = ForAll([u], T.lmem(u, T.NL(N.z)) == T.lmem(u, T.Lof(r)))
+    s4 = ('nl-same', [ForAll([u], Implies(T.lmem(u, T.NL(N.z)), T.lmem(u, T.Lof(r)))), ForAll([u], Implies(T.lmem(u, T.Lof(r)), T.lmem(u, T.NL(N.z))))], same)
+    s5 = ('nl-ext', [same, Implies(same, T.NL(N.z) == T.Lof(r))], T.NL(N.z) == T.Lof(r))        # the second hypothesis is the instance of Language.ext
+    return [s1, s2, s3, s4, s5]
+
+
+@proof('thompson', 'agrees-sigma-irrelevant')
+def _():
+    Q, S1, S2, F = Consts('Q_ S1x_ S2x_ F_', T.SetA); dl = Const('dl_', sort_of(RECORDS['NFA']['delta'])); q0, e = Consts('q0_ e_', Atom); r = Const('r_', Regexp); u = Const('u_', Word)
+    mk = parts(REC('NFA'))[1]; A, B = mk(Q, S1, dl, q0, F, e), mk(Q, S2, dl, q0, F, e)
+    same = ForAll([u], T.acc_b(A, u) == T.acc_b(B, u))
+    return [('acc', [], same), ('unfold', [same], T.agrees_b(A, r) == T.agrees_b(B, r))]
+
+
+@proof('thompson', 'agrees-union')
+def _():
+    N1, N2, R = _nfa_consts('N1_', 'N2_', 'R_'); r1, r2 = Consts('r1_ r2_', Regexp); w = Const('w_', Word)
+    hyp = [T.union_b(N1.z, N2.z, R.z), T.union_struct(N1, N2, R), T._wfz(R.z), T._eps(N1) == T._eps(N2), T.agrees_pred(N1, r1), T.agrees_pred(N2, r2)]
+    s1 = ('word', hyp + [T.noeps(T._eps(R), w)], T.acc_b(R.z, w) == T.lmem(w, T.Lof(Regexp.Sum(r1, r2))))
+    return [s1, ('fold', [ForAll([w], Implies(T.noeps(T._eps(R), w), T.acc_b(R.z, w) == T.lmem(w, T.Lof(Regexp.Sum(r1, r2)))))], T.agrees_b(R.z, Regexp.Sum(r1, r2)))]
+
+
+@proof('thompson', 'agrees-cat')
+def _():
+    N1, N2, R = _nfa_consts('N1_', 'N2_', 'R_'); r1, r2 = Consts('r1_ r2_', Regexp); w = Const('w_', Word); k = Const('k_', z3.IntSort())
+    e = T._eps(N1)
+    hyp = [T.cat_b(N1.z, N2.z, R.z), T.cat_struct(N1, N2, R), T._wfz(R.z), T._eps(N1) == T._eps(N2), T.agrees_pred(N1, r1), T.agrees_pred(N2, r2)]
+    pieces = ('pieces', [T.noeps(e, w)], ForAll([k], And(T.noeps(e, T.take(k, w)), T.noeps(e, T.drop(k, w)))))
+    free = ('free', hyp + [T.noeps(e, w)], T.acc_b(R.z, w) == Exists([k], And(0 <= k, k <= T.wlen(w), T.acc_b(N1.z, T.take(k, w)), T.acc_b(N2.z, T.drop(k, w)))))
+    tr = ('translate', hyp + [pieces[2]], ForAll([k], And(T.acc_b(N1.z, T.take(k, w)) == T.lmem(T.take(k, w), T.Lof(r1)), T.acc_b(N2.z, T.drop(k, w)) == T.lmem(T.drop(k, w), T.Lof(r2)))))
+    s1 = ('word', [free[2], tr[2]], T.acc_b(R.z, w) == T.lmem(w, T.Lof(Regexp.Concat(r1, r2))))
+    return [pieces, free, tr, s1, ('fold', hyp[:2] + [ForAll([w], Implies(T.noeps(T._eps(R), w), T.acc_b(R.z, w) == T.lmem(w, T.Lof(Regexp.Concat(r1, r2)))))], T.agrees_b(R.z, Regexp.Concat(r1, r2)))]
+
+
+@proof('thompson', 'agrees-star')
+def _():
+    N, R = _nfa_consts('N_', 'R_'); r = Const('r_', Regexp); w = Const('w_', Word)
+    hyp = [T.star_b(N.z, R.z), T.star_struct(N, R), T._wfz(R.z), T._wfz(N.z), T._sub(T.syms(r), rec_get(N, 'Sigma').z), T.agrees_pred(N, r)]
+    nl = _nl_is_l_steps(N, r)
+    s1 = ('word', hyp[:4] + [T.NL(N.z) == T.Lof(r), T.noeps(T._eps(N), w)], T.acc_b(R.z, w) == T.lmem(w, T.Lof(Regexp.Iter(r))))
+    return nl + [s1, ('fold', hyp[:2] + [ForAll([w], Implies(T.noeps(T._eps(R), w), T.acc_b(R.z, w) == T.lmem(w, T.Lof(Regexp.Iter(r)))))], T.agrees_b(R.z, Regexp.Iter(r)))]
+
+
+@proof('thompson', 'agrees-accepts')
+def _():
+    N, = _nfa_consts('N_'); r = Const('r_', Regexp); w = Const('w_', Word); Sg = rec_get(N, 'Sigma').z
+    return [('epsfree', [T._wfz(N.z), T.over(Sg, w)], T.noeps(T._eps(N), w)), ('use', [T.agrees_pred(N, r), T.noeps(T._eps(N), w)], T.acc_b(N.z, w) == T.lmem(w, T.Lof(r)))]
+
+
 def int_ind(P, lo=0):
     """induction on an integer >= lo: P(lo) and (j >= lo and P(j)) => P(j+1)"""
     j = fresh_z('j', z3.IntSort())
@@ -1139,7 +1313,7 @@ def prove_lemmas(theories, timeout=10):
     """-> list of (name, status, log); a lemma may use the def/lfp/assumed axioms of the selected theories and earlier lemmas"""
     from .smt import discharge
     obls = []
-    order = ['word', 'wordx', 'naming', 'dfa', 'nfa', 'dfax', 'nerode', 'quot', 'nfax', 'regexp', 'nfastar', 'gnfa', 'gnfadfa', 'tm', 'pda', 'pdax', 'cfg', 'iso', 'subset']
+    order = ['word', 'wordx', 'naming', 'dfa', 'nfa', 'dfax', 'nerode', 'quot', 'nfax', 'regexp', 'nfastar', 'thompson', 'gnfa', 'gnfadfa', 'tm', 'pda', 'pdax', 'cfg', 'iso', 'subset']
     ths = [t for t in order if t in theories] + [t for t in theories if t not in order]
     from .verify import DEPENDS
     def closure(t, out=None):
